@@ -593,6 +593,111 @@ func checkC07(c *Check) {
 		c.Hold("R4", "FetchRecord:domain-of-the-record", fr.FI.Decl.Pos(), msg5 == "", msg5)
 	}
 
+	// ---- R6: the verdict does not depend on the order of the DKIM results. A message may carry several signatures;
+	// RFC 7489 decides on the set of aligned results. Structurally: every variable that the DKIM branch of the results
+	// loop assigns and that a decision after the loop reads is a sticky flag (only ever set to the constant true there).
+	c.Rule("R6", "EvaluateAlignment: the decisions taken after the results loop read, of what the DKIM branch of the loop assigns, only sticky flags (set to constant true): the verdict is independent of the order of the signatures", 1)
+	if ea := c.need("R6", "internal/dmarc", "", "EvaluateAlignment"); ea != nil {
+		ei := ea.Info
+		msg := "undecided: the loop over the results / its DKIM branch was not found"
+		var loop *ast.RangeStmt
+		ast.Inspect(ea.FI.Decl.Body, func(n ast.Node) bool {
+			if rs, ok := n.(*ast.RangeStmt); ok && loop == nil {
+				if o := objOf(ei, rs.X); o != nil {
+					if _, isParam := paramObjs(ea.FI)[o.Name()]; isParam {
+						loop = rs
+					}
+				}
+			}
+			return true
+		})
+		if loop != nil {
+			// DKIM branch: an if whose init asserts *authres.DKIMResult (or a type-switch case of that type)
+			var branches []ast.Node
+			ast.Inspect(loop.Body, func(n ast.Node) bool {
+				switch x := n.(type) {
+				case *ast.IfStmt:
+					if as, ok := x.Init.(*ast.AssignStmt); ok && len(as.Rhs) == 1 {
+						if ta, ok := ast.Unparen(as.Rhs[0]).(*ast.TypeAssertExpr); ok && ta.Type != nil {
+							if p, ok := ei.TypeOf(ta.Type).(*types.Pointer); ok && typeIs(p.Elem(), "github.com/emersion/go-msgauth/authres", "DKIMResult") {
+								branches = append(branches, x.Body)
+							}
+						}
+					}
+				case *ast.CaseClause:
+					for _, t := range x.List {
+						if p, ok := ei.TypeOf(t).(*types.Pointer); ok && typeIs(p.Elem(), "github.com/emersion/go-msgauth/authres", "DKIMResult") {
+							for _, st := range x.Body {
+								branches = append(branches, st)
+							}
+						}
+					}
+				}
+				return true
+			})
+			if len(branches) > 0 {
+				msg = ""
+				nonSticky := map[types.Object]string{}
+				assigned := map[types.Object]bool{}
+				for _, br := range branches {
+					ast.Inspect(br, func(n ast.Node) bool {
+						as, ok := n.(*ast.AssignStmt)
+						if !ok {
+							if inc, isInc := n.(*ast.IncDecStmt); isInc {
+								if o := objOf(ei, inc.X); o != nil {
+									assigned[o] = true
+									nonSticky[o] = exprStr(inc.X) + " is counted"
+								}
+							}
+							return true
+						}
+						for i, l := range as.Lhs {
+							o := objOf(ei, rootExpr(l))
+							v, isVar := o.(*types.Var)
+							if !isVar || v.IsField() || as.Tok == token.DEFINE {
+								continue
+							}
+							assigned[o] = true
+							sticky := false
+							if len(as.Rhs) == len(as.Lhs) && as.Tok == token.ASSIGN {
+								if _, isID := ast.Unparen(l).(*ast.Ident); isID {
+									if tv, ok := ei.Types[as.Rhs[i]]; ok && tv.Value != nil && tv.Value.Kind() == constant.Bool && constant.BoolVal(tv.Value) {
+										sticky = true
+									}
+								}
+							}
+							if !sticky {
+								nonSticky[o] = exprStr(l) + " is overwritten per signature"
+							}
+						}
+						return true
+					})
+				}
+				// decisions after the loop
+				for _, b := range ea.F.G.Blocks {
+					cond := ea.F.condRaw(b)
+					if cond == nil || !b.Live || cond.Pos() < loop.End() {
+						continue
+					}
+					ast.Inspect(cond, func(n ast.Node) bool {
+						if id, ok := n.(*ast.Ident); ok {
+							if o := ei.Uses[id]; o != nil {
+								if why, bad := nonSticky[o]; bad {
+									msg = "a decision after the loop (" + exprStr(cond) + ") reads " + id.Name + ", which " + why + " in the DKIM branch: with several signatures the verdict depends on their order (a temp-failed aligned signature is forgotten when another one follows)"
+								}
+							}
+						}
+						return true
+					})
+				}
+				if len(assigned) == 0 {
+					msg = "undecided: the DKIM branch assigns nothing"
+				}
+			}
+		}
+		c.Hold("R6", "EvaluateAlignment:order-independent", ea.FI.Decl.Pos(), msg == "", msg)
+	}
+
 	// ---- R5: FetchRecord fails closed. A failed TXT lookup counts as "no record here" only when it is a DNS error that
 	// says the name does not exist; every other failure (time-out, SERVFAIL, a foreign error type) is returned, so that
 	// Verifier.Apply can refuse temporarily (R2) instead of accepting a message whose policy could not be read.
